@@ -359,7 +359,7 @@ func mentionsKey(p *corev1.Pod, key string) bool {
 
 type placementStats struct {
 	existingPlacements, newClaims, placedPods, strandedTypes, judgedTypes, missingDaemonCases int
-	classes                                                                           map[string]bool
+	classes                                                                                   map[string]bool
 }
 
 // checkNewNodeClaim judges one NodeClaim of a scheduling result. worldPods are pods assumed gone (consolidation candidates).
